@@ -121,7 +121,7 @@ func (s *sharedEntryAttributes) toXmlInternal(parent *etree.Element, onlyNewOrUp
 				}
 			}
 			return overallDoAdd, nil
-		case s.shouldDelete():
+		case s.shouldDelete() && s.parent != nil:
 			// s is meant to be removed
 			// if delete, create the element as child of parent
 			newElem := parent.CreateElement(s.pathElemName)
